@@ -512,6 +512,43 @@ def r6_formatter_dispatch(ctx, sym):
                   "report's file names are rendered with the first mask", construct='FeedbackFieldWrapper.__format__')
 
 
+def r11_initialised_once(ctx, sym):
+    ctx.rule('R11', "Feedback.__init__ evaluates the condition and files the object in the report; a constructor of a "
+                    "Feedback subclass therefore reaches it at most once: no __init__ in pedal calls "
+                    "super().__init__ (or a base class's __init__) from an except handler of a try whose body already "
+                    "made that call - a retry files the same object a second time, in the other list")
+    base = sym.find_class(FEEDBACK, 'Feedback')
+    n = 0
+
+    def is_base_init(c):
+        if not (isinstance(c, ast.Call) and isinstance(c.func, ast.Attribute) and c.func.attr == '__init__'):
+            return False
+        v = c.func.value
+        return (isinstance(v, ast.Call) and isinstance(v.func, ast.Name) and v.func.id == 'super') or \
+            isinstance(v, (ast.Name, ast.Attribute))
+    for ci in sym.subclasses(base):
+        init = ci.methods.get('__init__')
+        if init is None:
+            continue
+        n += 1
+        for t in ast.walk(init):
+            if not isinstance(t, ast.Try):
+                continue
+            in_body = any(is_base_init(c) for st in t.body for c in ast.walk(st))
+            if not in_body:
+                continue
+            for h in t.handlers:
+                again = [c for st in h.body for c in ast.walk(st) if is_base_init(c)]
+                ctx.check(not again, 'R11', '%s.__init__:initialised-once' % ci.name, ci.module, again[0] if again else h,
+                          "%s.__init__ calls the base constructor again in an except handler after the first call "
+                          "failed: the first call has already filed the object as not triggered (and re-raised), the "
+                          "second files it as triggered" % ci.name,
+                          "runtime_error.override(message_template='{nope}'); a student ZeroDivisionError: the "
+                          "feedback object sits in both report.feedback and report.ignored_feedback")
+    ctx.floor('R11', 'Feedback subclasses with their own __init__', n, 10)
+    ctx.ok('R11', 'sweep', sample={'constructors': n})
+
+
 def r7_overrides(ctx, sym):
     ctx.rule('R7', "Feedback.override / _restore_overrides / Report.override_feedback / clear_overridden_feedback, "
                    "executed abstractly on a model class hierarchy (base class, subclass inheriting the attribute) "
@@ -743,6 +780,7 @@ def run(ctx):
     r5_message(ctx, sym)
     r6_formatter_dispatch(ctx, sym)
     r7_overrides(ctx, sym)
+    r11_initialised_once(ctx, sym)
     r8_constructor(ctx, sym)
     r9_parent_kinds(ctx, sym)
     r10_logging_commands(ctx, sym)
